@@ -17,11 +17,17 @@ fn commit(x: &Integer, r: &Integer, g: &Integer, h: &Integer, n: &Integer) -> In
 
 /// public quantities of the "proof with tolerance": (T, aa, bb)
 fn tol(a: &Integer, b: &Integer) -> (u32, Integer, Integer) {
+    // the scaled interval [2^T a, 2^T b] of Boudot's proof without tolerance (after the F15 fix: no offsets)
     let t = 2 * (T_ + L_ + 1) + Integer::from(b - a).significant_bits();
-    let s = Integer::from(2).pow(L_ + T_ + t / 2 + 1) * Integer::from(b - a).sqrt();
-    let aa = Integer::from(2).pow(t) * a - &s;
-    let bb = Integer::from(2).pow(t) * b + &s;
+    let aa = Integer::from(2).pow(t) * a;
+    let bb = Integer::from(2).pow(t) * b;
     (t, aa, bb)
+}
+
+/// the bound on the remainders that both sides use in the larger-interval sub-proofs
+fn remainder_bound(a: &Integer, b: &Integer) -> Integer {
+    let t = 2 * (T_ + L_ + 1) + Integer::from(b - a).significant_bits();
+    Integer::from(2) * (Integer::from(2).pow(t) * Integer::from(b - a)).sqrt() + 2u32
 }
 
 fn inv(x: &Integer, n: &Integer) -> Integer {
@@ -294,8 +300,17 @@ fn cheating_prover<C: Cs>(ctx: &Ctx, idx: u64) {
         let (t, aa, bb) = tol(&a, &b);
         let w = Integer::from(&b - &a);
         let icase = format!("{}/cheat/[{}b,+{}b]", C::NAME, a.significant_bits(), w.significant_bits());
-        // what the larger-interval sub-prover can still answer for: |remainder| well below 2^(T+l) * b
-        let cap = Integer::from(&b.clone().abs().max(one.clone()) << (t + L_ - 3));
+        // bounds the cheating prover may claim in its larger-interval sub-proofs: the protocol's own, wider ones, and
+        // the one the pinned tree used (2^T * rmax, F15). Its sub-prover answers for |remainder| < bound * 2^(l-3).
+        let own = remainder_bound(&a, &b);
+        let claims: Vec<(&str, Option<Integer>)> = vec![
+            ("own", None),
+            ("own*2^8", Some(Integer::from(&own << 8u32))),
+            ("own*2^40", Some(Integer::from(&own << 40u32))),
+            ("own*2^(T/2)", Some(Integer::from(&own << (t / 2)))),
+            ("2^T*max(|b|,1)", Some(Integer::from(&b.clone().abs().max(one.clone()) << t))),
+            ("own*2^T", Some(Integer::from(&own << t))),
+        ];
         let mut targets: Vec<(&str, Integer)> = vec![
             ("control:a", a.clone()), ("control:b", b.clone()), ("control:mid", Integer::from(&a + Integer::from(&w / 2u32))),
             ("a-1", Integer::from(&a - 1u32)), ("a-2", Integer::from(&a - 2u32)), ("a-2^20", Integer::from(&a - (one.clone() << 20u32))),
@@ -314,13 +329,20 @@ fn cheating_prover<C: Cs>(ctx: &Ctx, idx: u64) {
             let sq = |v: &Integer| if *v >= 0 { v.clone().sqrt() } else { Integer::from(0) };
             let (sa, sb) = (sq(&xa), sq(&xb));
             let (ra, rb) = (Integer::from(&xa - sa.clone().pow(2)), Integer::from(&xb - sb.clone().pow(2)));
-            if ra.clone().abs() > cap || rb.clone().abs() > cap {
+            // the smallest claimed bound under which the sub-prover can answer for both remainders
+            let need = ra.clone().abs().max(rb.clone().abs());
+            let Some((cn, claim)) = claims.iter().find(|(_, c)| need <= Integer::from(c.as_ref().unwrap_or(&own) << (L_ - 3))) else {
                 ctx.count("cheating_targets_beyond_the_sub_prover's_reach", 1);
                 continue;
+            };
+            if control && claim.is_some() {
+                ctx.inconclusive("C16: honest remainders exceed the protocol's own bound (harness formula out of date?)");
+                continue;
             }
+            ctx.count(&format!("cheating_prover_claimed_bound[{cn}]"), 1);
             let rr = rand_int_bits(&mut r, C::ln);
             let c = CL03Commitment { value: commit(&x, &rr, &g, &h, &n), randomness: rr };
-            let p = ctx.call("Boudot::hook_prove_with_decomposition", &case, None, || Ok::<_, ()>(Rp::hook_prove_with_decomposition::<Sha256>(&x, &c, &g, &h, &n, &a, &b, &sa, &sb)));
+            let p = ctx.call("Boudot::hook_prove_with_decomposition", &case, None, || Ok::<_, ()>(Rp::hook_prove_with_decomposition::<Sha256>(&x, &c, &g, &h, &n, &a, &b, &sa, &sb, claim.as_ref())));
             let Some(p) = p.value else {
                 if control {
                     ctx.inconclusive("C16: the cheating-prover hook failed on an honest decomposition (harness / hook problem)");
